@@ -526,6 +526,54 @@ fn check_configure_in_scope(n: u32, via_scope_init: bool) -> Option<(String, Str
     None
 }
 
+/// An infinite best objective value (a legal value: every solution seen so far is infeasible) is logged as that value; only a
+/// missing source is an explicit null. Decided on the CBOR export, which can represent infinities (JSON cannot).
+fn check_infinite_best(n: u32, best: f64) -> Option<(String, String)> {
+    let config = Configuration::<TagP>::builder().update_best_individual().while_(LessThanN::iterations(n), |b| b.do_(Logger::new())).build();
+    let r = catch(|| {
+        config.optimize_with(&TagP, |st| {
+            st.insert(mahf::Random::new(1));
+            st.populations_mut().push(vec![mahf::Individual::<TagP>::new(7, crate::subject::problems::so(best))]);
+            st.configure_log(|cfg| {
+                cfg.with(EveryN::iterations(1), mahf::lens::common::BestObjectiveValueLens::<TagP>::entry());
+                Ok(())
+            })
+        })
+    });
+    let ctx = |w: String| format!("best individual with objective value {}, rule (every iteration, BestObjectiveValueLens), logger in a loop of {} passes, exported with to_cbor: {}", best, n, w);
+    let st = match r {
+        Err(p) => return Some(("C15 log infinite-best panic".into(), ctx(p))),
+        Ok(Err(e)) => return Some(("C15 log infinite-best error".into(), ctx(format!("{:#}", e)))),
+        Ok(Ok(st)) => st,
+    };
+    let log = st.log();
+    let bytes = match export_bytes("cbor", &|p| catch(|| log.to_cbor(p)).map_err(|p| format!("panic: {}", p)).and_then(|r| r.map_err(|e| format!("{:#}", e)))) {
+        Ok(b) => b,
+        Err(e) => return Some(("C15 export to_cbor failed".into(), ctx(e))),
+    };
+    let v = match ciborium::de::from_reader::<ciborium::value::Value, _>(&mut std::io::Cursor::new(&bytes[..])) {
+        Ok(v) => v,
+        Err(e) => return Some(("C15 export to_cbor undecodable".into(), ctx(e.to_string()))),
+    };
+    // count the float entries equal to `best` and the explicit nulls anywhere in the decoded document
+    fn walk(v: &ciborium::value::Value, best: f64, hits: &mut usize, nulls: &mut usize) {
+        use ciborium::value::Value as C;
+        match v {
+            C::Float(f) if *f == best => *hits += 1,
+            C::Null => *nulls += 1,
+            C::Array(a) => a.iter().for_each(|x| walk(x, best, hits, nulls)),
+            C::Map(m) => m.iter().for_each(|(_, x)| walk(x, best, hits, nulls)),
+            _ => {}
+        }
+    }
+    let (mut hits, mut nulls) = (0, 0);
+    walk(&v, best, &mut hits, &mut nulls);
+    if hits != n as usize || nulls != 0 {
+        return Some(("C15 export to_cbor value-of-present-state-lost".into(), ctx(format!("the decoded export holds the value {} {} time(s) and {} explicit null(s); expected {} and 0", best, hits, nulls, n))));
+    }
+    None
+}
+
 pub fn log_cases(thorough: bool) -> Vec<LogCase> {
     let mut all_rules: Vec<Rule> = (0..4u8).flat_map(|t| (0..4u8).map(move |e| (t, e))).collect();
     // a state whose serialised value leaves [0, 1]
@@ -621,6 +669,22 @@ pub fn one_apart() -> Vec<(&'static str, Vec<(String, RonR)>)> {
     // templates without parameters: the export must at least succeed and differ with the condition
     out.push(("real_rs", vec![("base".into(), ron_of(rs::real_rs::<RealP>(c()))), ("condition n = 4".into(), ron_of(rs::real_rs::<RealP>(LessThanN::iterations(4))))]));
     out.push(("permutation_rs", vec![("base".into(), ron_of(rs::permutation_rs::<TspP>(c()))), ("condition n = 4".into(), ron_of(rs::permutation_rs::<TspP>(LessThanN::iterations(4))))]));
+    // configurations that differ only in the state a lens points to (a generic argument of the lens type)
+    {
+        use mahf::components::mapping::Linear;
+        use mahf::components::mutation::{MutationRate, MutationStrength, NormalMutation, UniformMutation};
+        use mahf::state::common::{Evaluations, Progress};
+        let mk = |m: Box<dyn mahf::Component<RealP>>| ron_of(Ok(Configuration::<RealP>::builder().while_(c(), |b| b.do_(m)).build()));
+        out.push((
+            "lens-targets",
+            vec![
+                ("base".into(), mk(Linear::new(0.9, 0.4, ValueOf::<Progress<ValueOf<Iterations>>>::new(), ValueOf::<MutationStrength<NormalMutation>>::new()))),
+                ("the mapping's output from MutationStrength<NormalMutation> to MutationStrength<UniformMutation>".into(), mk(Linear::new(0.9, 0.4, ValueOf::<Progress<ValueOf<Iterations>>>::new(), ValueOf::<MutationStrength<UniformMutation>>::new()))),
+                ("the mapping's output from MutationStrength<NormalMutation> to MutationRate<NormalMutation>".into(), mk(Linear::new(0.9, 0.4, ValueOf::<Progress<ValueOf<Iterations>>>::new(), ValueOf::<MutationRate<NormalMutation>>::new()))),
+                ("the mapping's input from Progress<ValueOf<Iterations>> to Progress<ValueOf<Evaluations>>".into(), mk(Linear::new(0.9, 0.4, ValueOf::<Progress<ValueOf<Evaluations>>>::new(), ValueOf::<MutationStrength<NormalMutation>>::new()))),
+            ],
+        ));
+    }
     let _ = rp;
     out
 }
@@ -630,6 +694,7 @@ pub fn run(rep: &mut Report) {
     rep.alpha("log: all rule sets of <= 2 (quick) / 3 (thorough) rules over triggers {every iteration, never, every second iteration, scripted, change of the logged state, a counting trigger that writes the logged state on every evaluation} x extractors {present state via ValueOf, missing state, iteration counter, the present state again via IdLens (repeated name)} x logger placements {in the loop body, after the loop, inside a scope in the loop, twice in the loop body} x 0..3 iterations; scripted triggers answer by explorer choice");
     rep.alpha("log export: to_json and to_cbor of every distinct log produced, decoded back (name table re-expanded)");
     rep.alpha("configure_log called again from inside a scope (debug step / scope state initialiser), loggers inside and outside the scope, 1..3 iterations");
+    rep.alpha("a best objective value of +inf, 1e308 and 0.5 logged through BestObjectiveValueLens and read back from the CBOR export");
     rep.alpha("with_common for two triggers (5 trigger pairs); par_experiment log files for problem names with and without dots");
     rep.alpha("configuration export: RON of every generated configuration tree (all leaf effects up to 3 / 4 nodes, shapes up to 4 / 5 nodes), of all 21 templates in every parameter set of the run table, of a base parameter set and every one-parameter-apart variant per template, and of clones; Configuration::to_ron into a file for every template");
     rep.assume("logger placements in configurations without any loop have no iteration count to report and are outside the alphabet; scopes with initialiser/merger functions are outside the export alphabet (function pointers are not serialised)");
@@ -692,6 +757,16 @@ pub fn run(rep: &mut Report) {
             part.states += 1;
             if let Some((sg, d)) = check_configure_in_scope(n, via) {
                 part.violate(sg, d, json!({"kind": "configure_in_scope", "n": n, "via": via}));
+            }
+        }
+    }
+    for n in 1..=2u32 {
+        for best in [f64::INFINITY, 1.0e308, 0.5] {
+            part.transitions += n as u64;
+            part.traces += 1;
+            part.states += 1;
+            if let Some((sg, d)) = check_infinite_best(n, best) {
+                part.violate(sg, d, json!({"kind": "infinite_best", "n": n, "best": format!("{:016x}", best.to_bits())}));
             }
         }
     }
@@ -883,6 +958,7 @@ pub fn replay(case: &Value) -> Result<Vec<(String, String)>, String> {
     match case["kind"].as_str().unwrap_or("") {
         "with_common" => Ok(check_with_common(case["n"].as_u64().unwrap_or(7) as u32, case["a"].as_u64().unwrap_or(2) as u32, case["b"].as_u64().unwrap_or(3) as u32).into_iter().collect()),
         "configure_in_scope" => Ok(check_configure_in_scope(case["n"].as_u64().unwrap_or(2) as u32, case["via"].as_bool().unwrap_or(false)).into_iter().collect()),
+        "infinite_best" => Ok(check_infinite_best(case["n"].as_u64().unwrap_or(1) as u32, case["best"].as_str().and_then(|s| u64::from_str_radix(s, 16).ok()).map(f64::from_bits).unwrap_or(f64::INFINITY)).into_iter().collect()),
         "exp-names" => Ok(crate::props::c08::check_par_experiment_named(3, &["sphere_shift0.25", "berlin52.tsp", "plain"])),
         "log" => {
             let rules: Vec<Rule> = case["rules"].as_array().ok_or("no rules")?.iter().map(|r| (r[0].as_u64().unwrap() as u8, r[1].as_u64().unwrap() as u8)).collect();
